@@ -198,10 +198,16 @@ def _audit(event, args):
     if event == "os.utime":
         # (path, times, ns, dir_fd): explicit times are data the program chose (its own clock), not "now" as the kernel sees it
         explicit = len(args) > 2 and (args[1] is not None or args[2] is not None)
-        _AUDIT["events"].append(("utime-explicit" if explicit else "utime", args[0]))
+        target = args[0]
+        if isinstance(target, int):  # os.utime(fd): name the file while the descriptor is still open
+            try:
+                target = os.readlink(f"/proc/self/fd/{target}")
+            except OSError:
+                return
+        _AUDIT["events"].append(("utime-explicit" if explicit else "utime", target))
     elif event == "open":
         path, mode, flags = args
-        if isinstance(path, (str, bytes, os.PathLike)) and (flags & (os.O_WRONLY | os.O_RDWR | os.O_CREAT | os.O_TRUNC | os.O_APPEND)):
+        if isinstance(path, (str, bytes, os.PathLike)) and isinstance(flags, int) and (flags & (os.O_WRONLY | os.O_RDWR | os.O_CREAT | os.O_TRUNC | os.O_APPEND)):
             _AUDIT["events"].append(("open", path))
     elif event == "os.remove":
         _AUDIT["events"].append(("remove", args[0]))
@@ -513,7 +519,7 @@ class Session:
                 st = os.lstat(p) if is_link else os.stat(p)
             except OSError:
                 continue
-            if not is_link and not os.path.isfile(p):
+            if not is_link and not (os.path.isfile(p) or os.path.isdir(p)):
                 continue
             if not fresh(st.st_mtime_ns):
                 continue  # the event did not actually stamp this one (e.g. a link touched without following it leaves its target alone)
